@@ -9,6 +9,7 @@ import (
 	"strconv"
 	"time"
 
+	"tunnox-core/internal/core/storage"
 	"tunnox-core/internal/protocol/session/crossnode"
 	vc "tunnox-core/internal/verifharness/common"
 )
@@ -42,11 +43,29 @@ func execPl(toks []string) string {
 			return p
 		}
 		ctx := context.Background()
-		var created int64
-		pool := crossnode.NewNodeConnectionPool(ctx, "verif-node", ln.Addr().String(),
-			crossnode.PoolConfig{MinConns: 0, MaxConns: 4, IdleTimeout: time.Minute, DialTimeout: 2 * time.Second}, &created)
-		addCloser(closerFunc(func() error { pool.CloseAll(); return nil }))
-		c1, err := pool.Get(ctx)
+		// two ways to the same node pool: NodeConnectionPool directly, or the top-level Pool that resolves
+		// the node's address from storage (tunnox:node:<id>:addr) and creates the node pool on demand
+		cfg := crossnode.PoolConfig{MinConns: 0, MaxConns: 4, IdleTimeout: time.Minute, DialTimeout: 2 * time.Second}
+		viaTop := (c.pre+len(c.evs))%2 == 0
+		var get func() (*crossnode.Conn, error)
+		var put func(*crossnode.Conn)
+		if viaTop {
+			stor := storage.NewMemoryStorage(ctx)
+			if err := stor.Set("tunnox:node:verif-node:addr", ln.Addr().String(), time.Hour); err != nil {
+				panic(err)
+			}
+			top := crossnode.NewPool(ctx, stor, "verif-self", cfg)
+			addCloser(closerFunc(func() error { top.Close(); return nil }))
+			get = func() (*crossnode.Conn, error) { return top.Get(ctx, "verif-node") }
+			put = func(x *crossnode.Conn) { top.Put(x) }
+		} else {
+			var created int64
+			pool := crossnode.NewNodeConnectionPool(ctx, "verif-node", ln.Addr().String(), cfg, &created)
+			addCloser(closerFunc(func() error { pool.CloseAll(); return nil }))
+			get = func() (*crossnode.Conn, error) { return pool.Get(ctx) }
+			put = func(x *crossnode.Conn) { x.Release() }
+		}
+		c1, err := get()
 		if err != nil {
 			panic("pl: get: " + err.Error())
 		}
@@ -59,8 +78,8 @@ func execPl(toks []string) string {
 			crossnode.WriteFrame(peer, fid, byte(e.ty), genBytes(e.n, e.seed))
 		}
 		time.Sleep(2 * time.Millisecond) // the residual bytes have arrived before the connection goes idle
-		c1.Release()
-		c2, err := pool.Get(ctx)
+		put(c1)
+		c2, err := get()
 		if err != nil {
 			panic("pl: second get: " + err.Error())
 		}
